@@ -148,9 +148,6 @@ func c13WriterStream(c *Ctx, r *Result) {
 		if staleTmp && inplace {
 			hasTmp = false // not touched by the in-place writer; the model starts without one
 		}
-		if staleTmp && !inplace && k == 0 {
-			hasTmp = false
-		}
 		if mrec != c13EncOpt(rec, hasRec) || mtmp != c13EncOpt(tb, hasTmp) {
 			r.violate(Violation{Kind: "correspondence", Key: "C13:model-writer", Broken: "record_path_old_or_new / writeCut (steps of writeAtomicAt, os.WriteFile)",
 				What:  "record file and .tmp sibling after a write cut by RLIMIT_FSIZE differ between the real writer and the model",
